@@ -32,6 +32,8 @@ var MacroShapes = []MacroShape{
 	{"if-do-let-if", "(c9if (== n 0) BASE (c9do 1 (c9let k n (c9if (> k 0) SELF -1))))"},
 	{"let-do-scope-if", "(cond (== n 0) BASE (let [k 1] (c9do (newScope (c9if true SELF 0)))))"},
 	{"when-in-and-in-let", "(c9if (== n 0) BASE (c9let j 2 (c9and j (c9when true 1 SELF))))"},
+	{"empty-scope-from-macro", "(cond (== n 0) BASE (c9do (c9scope) SELF))"},
+	{"empty-scope-from-macro-in-let", "(c9if (== n 0) BASE (c9let k n (c9scope) (c9do) (c9scope (c9scope)) SELF))"},
 	{"if-if-if", "(c9if (== n 0) BASE (c9if (< n 0) -1 (c9if (> n 0) SELF -2)))"},
 }
 
